@@ -405,7 +405,7 @@ pub fn run(args: &Args) -> i32 {
     total = total.merge(t1);
     // days around numeric thresholds of the year, the day count (relative to several epochs) and the second count: every
     // construction path at three seconds of each day x five offsets
-    {
+    if !args.digest_mode {
         let ws = crate::cal::threshold_windows(&cyc, thorough);
         let t = ws
             .par_iter()
